@@ -100,6 +100,26 @@ def extra_corpus():
         "factors": [f0, f1, con], "constraints": [],
         "blocks": [{"id": 0, "kind": "CrossBlock", "design": [0, 1, 2], "crossing": [0, 2], "constraints": [], "rcc": True}],
         "main": 0}))
+    # Exclude on a level of a free (uncrossed, independent) factor, with and without a leftover round:
+    # the count, the candidate decoding of full rounds and of the leftover round must all use the
+    # same filtered level list (seeded change C05-leftover-unfiltered-independent-levels)
+    for tag, trials, inner in (("repeat-leftover", 3, True), ("repeat-noleftover", 4, True),
+                               ("weight-leftover", 3, False), ("repeat-2leftover", 5, True)):
+        cons = [{"id": 0, "kind": "Exclude", "level": [1, "z"]}, {"id": 1, "kind": "MinimumTrials", "trials": trials}]
+        if inner:
+            blocks = [{"id": 0, "kind": "CrossBlock", "design": [0, 1], "crossing": [0], "constraints": [0], "rcc": False},
+                      {"id": 1, "kind": "Repeat", "block": 0, "constraints": [1]}]
+            main = 1
+        else:
+            blocks = [{"id": 0, "kind": "CrossBlock", "design": [0, 1], "crossing": [0], "constraints": [0, 1], "rcc": False}]
+            main = 0
+        out.append(("free-exclude-" + tag, {"factors": [f0, f1], "constraints": cons, "blocks": blocks, "main": main}))
+    f2 = {"id": 2, "name": "f2", "kind": "simple", "levels": [["p", 1], ["q", 1]]}
+    out.append(("free-exclude-two-crossed-leftover", {
+        "factors": [f0, f1, f2],
+        "constraints": [{"id": 0, "kind": "Exclude", "level": [1, "x"]}, {"id": 1, "kind": "MinimumTrials", "trials": 5}],
+        "blocks": [{"id": 0, "kind": "CrossBlock", "design": [0, 1, 2], "crossing": [0, 2], "constraints": [0], "rcc": False},
+                   {"id": 1, "kind": "Repeat", "block": 0, "constraints": [1]}], "main": 1}))
     return out
 
 
